@@ -838,7 +838,11 @@ Record all_facts (sh : shell) (c : cdfa) (om : list (string * string)) (os : lis
       let ord := match assocN (fst pi) os with Some o => o | None => [] end in
       do t <- get_lookup_tables sd (a_commands a) (array_start sh) (n_sub_cmd nd)
                 (compadd_switch sh (n_sub_compadd nd)) (n_sub_star nd) ord;
-      Ok (fst pi, snd pi, t)) (get_subwords rt (array_start sh)) = Ok (a_subwords a)
+      Ok (fst pi, snd pi, t)) (get_subwords rt (array_start sh)) = Ok (a_subwords a);
+  af_subacc : omap (fun pi : N * N =>
+      do sd <- lookup_sub c (fst pi);
+      Ok (snd pi, map (fun s => s + array_start sh) (d_accepting sd))) (get_subwords rt (array_start sh))
+      = Ok (a_subaccepting a)
 }.
 
 Lemma all_tables_inv sh c om os nd a :
@@ -852,6 +856,7 @@ Proof.
   apply obind_ok in H. destruct H as [subtrans [Hst H]].
   apply obind_ok in H. destruct H as [csub [Hcsub H]].
   apply obind_ok in H. destruct H as [subs [Hsubs H]].
+  apply obind_ok in H. destruct H as [subacc [Hsubacc H]].
   inversion H; subst; clear H. exists rt. constructor; cbn; try assumption; reflexivity.
 Qed.
 
@@ -919,6 +924,21 @@ Proof.
     unfold lookup_sub in Hsd. destruct (nthN (c_subs c) pi); inversion Hsd; reflexivity.
   - intros [rt' [sd [Hrt [Hin [Hsd Ht]]]]]. rewrite (af_rt _ _ _ _ _ _ _ F) in Hrt. inversion Hrt; subst rt'.
     exists (pi, id). split; [exact Hin|]. cbn. unfold lookup_sub. rewrite Hsd. cbn. rewrite Ht. reflexivity.
+Qed.
+
+(** bash: the accepting states printed for a within-word automaton are those of THAT automaton *)
+Theorem subaccepting_exact id accs :
+  In (id, accs) (a_subaccepting a) <->
+  exists rt pi sd, rtrans (c_main c) = Ok rt /\ In (pi, id) (get_subwords rt (array_start sh))
+    /\ nthN (c_subs c) pi = Some sd /\ accs = map (fun s => s + array_start sh) (d_accepting sd).
+Proof.
+  destruct (all_tables_inv _ _ _ _ _ _ Hall) as [rt F].
+  rewrite (omap_ok_in _ _ _ (af_subacc _ _ _ _ _ _ _ F)). split.
+  - intros [[pi' id'] [Hin Hf]]. cbn in Hf. apply obind_ok in Hf. destruct Hf as [sd [Hsd Hf]].
+    inversion Hf; subst. exists rt, pi', sd. split; [exact (af_rt _ _ _ _ _ _ _ F)|]. split; [exact Hin|]. split; [|reflexivity].
+    unfold lookup_sub in Hsd. destruct (nthN (c_subs c) pi'); inversion Hsd; reflexivity.
+  - intros [rt' [pi [sd [Hrt [Hin [Hsd ->]]]]]]. rewrite (af_rt _ _ _ _ _ _ _ F) in Hrt. inversion Hrt; subst rt'.
+    exists (pi, id). split; [exact Hin|]. cbn. unfold lookup_sub. rewrite Hsd. reflexivity.
 Qed.
 End All.
 
